@@ -73,6 +73,79 @@ pub fn dp_queries(tier: Tier) -> Vec<DpQuery> {
     v
 }
 
+/// C03 needs no database: every combination of 1-2 (thorough: 1-3) aggregates of the alphabet x
+/// grouping (none / public key / private key / mixed) on a one-table and a foreign-key-path subject
+pub fn c03_queries(tier: Tier) -> Vec<DpQuery> {
+    let mut v = dp_queries(Tier::Thorough);
+    let aggs: [(&str, &'static str); 8] = [
+        ("count({x})", "count"), ("sum({x})", "sum"), ("avg({x})", "avg"), ("variance({x})", "var"), ("stddev({x})", "std"),
+        ("count(DISTINCT {x})", "count-distinct"), ("sum(DISTINCT {x})", "sum-distinct"), ("avg(DISTINCT {x})", "avg-distinct"),
+    ];
+    // (table, tables read, group by, key tag, aggregated column)
+    let subjects: [(&str, &'static [&'static str], &str, &'static str, &str); 6] = [
+        ("users", &["users"], "", "ungrouped", "age"),
+        ("users", &["users"], "city", "public-key", "age"),
+        ("users", &["users"], "age", "private-key", "id"),
+        ("users", &["users"], "city, age", "mixed-keys", "id"),
+        ("orders", &["users", "orders"], "", "ungrouped", "amount"),
+        ("orders", &["users", "orders"], "user_id", "private-key", "amount"),
+    ];
+    let max_k = tier.pick(2, 3);
+    for (table, tables, keys, ktag, x) in subjects {
+        let n = aggs.len();
+        let mut subsets: Vec<Vec<usize>> = vec![];
+        for a in 0..n {
+            subsets.push(vec![a]);
+            for b in a + 1..n {
+                subsets.push(vec![a, b]);
+                if max_k >= 3 {
+                    for c in b + 1..n {
+                        subsets.push(vec![a, b, c]);
+                    }
+                }
+            }
+        }
+        for s in subsets {
+            let items: Vec<String> = s.iter().enumerate().map(|(i, a)| format!("{} AS a{}", aggs[*a].0.replace("{x}", x), i)).collect();
+            let mut tags: Vec<&'static str> = vec![ktag];
+            tags.extend(s.iter().map(|a| aggs[*a].1));
+            if tables.len() > 1 {
+                tags.push("fk-path");
+            }
+            if s.iter().all(|a| *a >= 5) {
+                tags.push("distinct-only");
+            }
+            let sql = if keys.is_empty() { format!("SELECT {} FROM {table}", items.join(", ")) } else { format!("SELECT {keys}, {} FROM {table} GROUP BY {keys}", items.join(", ")) };
+            v.push(DpQuery { sql, tables: tables.to_vec(), tags });
+        }
+    }
+    // keys only
+    v.push(dq("SELECT age FROM users GROUP BY age", &["users"], &["private-key", "keys-only"]));
+    v.push(dq("SELECT DISTINCT user_id FROM orders", &["users", "orders"], &["private-key", "keys-only", "fk-path"]));
+    v
+}
+
+pub fn c03_param_grid(tier: Tier) -> Vec<(String, DpParameters)> {
+    let mut out = vec![];
+    let eps: &[f64] = tier.pick(&[1.0, 0.1][..], &[0.01, 0.1, 1.0, 5.0][..]);
+    let deltas: &[f64] = tier.pick(&[1e-3][..], &[1e-3, 1e-6, 1e-9][..]);
+    let shares: &[f64] = tier.pick(&[0.5, 0.1][..], &[0.5, 0.1, 0.9][..]);
+    let mults: &[(f64, f64)] = tier.pick(&[(100.0, 1.0)][..], &[(100.0, 1.0), (1.0, 1.0), (100.0, 0.1)][..]);
+    let cus: &[u64] = tier.pick(&[1, 5][..], &[1, 5][..]);
+    for e in eps {
+        for d in deltas {
+            for sh in shares {
+                for (m, ms) in mults {
+                    for cu in cus {
+                        out.push((format!("eps={e},delta={d},mult={m},mult_share={ms},cu={cu},tau_share={sh}"), DpParameters::new(*e, *d, *sh, *m, *ms, *cu)));
+                    }
+                }
+            }
+        }
+    }
+    out
+}
+
 pub fn dp_param_grid(tier: Tier) -> Vec<(String, DpParameters)> {
     let mut out = vec![];
     let eps: &[f64] = match tier {
@@ -127,10 +200,19 @@ pub enum CompileOutcome {
 }
 
 pub fn compile_dp(q: &DpQuery, dp_name: &str, dp: &DpParameters, relations: &Hierarchy<Arc<Relation>>) -> CompileOutcome {
+    compile_dp_with(q, dp_name, dp, relations, crate::c18::privacy_unit())
+}
+
+/// direct, weighted privacy units: the weight varies between the rows of one unit in `orders`
+pub fn weighted_privacy_unit() -> qrlew::privacy_unit_tracking::PrivacyUnit {
+    qrlew::privacy_unit_tracking::PrivacyUnit::from((vec![("users", vec![], "id", "id"), ("orders", vec![], "user_id", "id")], false))
+}
+
+pub fn compile_dp_with(q: &DpQuery, dp_name: &str, dp: &DpParameters, relations: &Hierarchy<Arc<Relation>>, pu: qrlew::privacy_unit_tracking::PrivacyUnit) -> CompileOutcome {
     let r = guarded(|| -> Result<Compiled, String> {
         let query = parse(&q.sql).map_err(|e| e.to_string())?;
         let rel = Relation::try_from(query.with(relations)).map_err(|e| e.to_string())?;
-        let out = rel.rewrite_with_differential_privacy(relations, None, crate::c18::privacy_unit(), dp.clone()).map_err(|e| e.to_string())?;
+        let out = rel.rewrite_with_differential_privacy(relations, None, pu.clone(), dp.clone()).map_err(|e| e.to_string())?;
         let mut g = vec![];
         let mut ed = vec![];
         flatten_event(out.dp_event(), &mut g, &mut ed);
@@ -241,8 +323,8 @@ fn l2_diff(a: &BTreeMap<String, f64>, b: &BTreeMap<String, f64>) -> f64 {
 
 fn db_rows(tier: Tier, ntables: usize) -> usize {
     match (tier, ntables) {
-        (Tier::Quick, 1) => 3,
-        (Tier::Quick, _) => 2,
+        (Tier::Quick, 1) => 2,
+        (Tier::Quick, _) => 4,
         (Tier::Thorough, 1) => 3,
         (Tier::Thorough, _) => 3,
     }
@@ -303,14 +385,18 @@ pub fn run(ctx: &Ctx, which: Which) -> Report {
         return head;
     }
     // closed-form self-test of the reference DP maths
+    let uniform3: f64 = 3.0 * (2.0 * (1.25f64 / (1e-3 / 3.0)).ln()).sqrt() / 10.0;
+    if (min_epsilon_sum(&[10.0, 10.0, 10.0], 1e-3) - uniform3).abs() > 1e-6 || min_epsilon_sum(&[16.50909392199704, 16.50909392199704, 7.911533864355908], 1e-3) > 1.0 {
+        head.machinery_errors.push("reference allocation solver self-test failed".into());
+        return head;
+    }
     if (phi_inv(0.975) - 1.959963984540054).abs() > 1e-9 || (ref_multiplier(1.0, 1e-3) - 3.776479532659047).abs() > 1e-9 {
         head.machinery_errors.push("reference DP maths self-test failed".into());
         return head;
     }
-    let world = World::standard();
+    let world = if ctx.tier == Tier::Quick { World::compact() } else { World::standard() };
     let relations = world.relations();
-    let queries = dp_queries(ctx.tier);
-    let grid = dp_param_grid(ctx.tier);
+    let (queries, grid) = if which == Which::C03 { (c03_queries(ctx.tier), c03_param_grid(ctx.tier)) } else { (dp_queries(ctx.tier), dp_param_grid(ctx.tier)) };
     let mut configs: Vec<Compiled> = vec![];
     for q in &queries {
         for (name, dp) in &grid {
@@ -343,7 +429,7 @@ pub fn run(ctx: &Ctx, which: Which) -> Report {
         for c in &configs {
             check_c03(c, &mut head);
         }
-        head.rule = "accepted DP programs (1-3 aggregates, distinct splits, grouped by public / private / mixed keys, joins along the privacy-unit path, sub-queries) x a grid of DpParameters; the mechanisms actually present are read from the rewritten IR (sigma and clipping bound C per noised column, tau / sigma_count / Cu per threshold filter) and checked against closed forms written from the definitions: (i) every Gaussian column is matched by a recorded Gaussian entry with multiplier <= sigma/C, every threshold by an (epsilon, delta) entry >= the one solved from the literals; (ii) per query, epsilon_used + sum epsilon_i <= epsilon and delta_used + sum delta_i <= delta for the uniform split. non-trivial = configurations with at least one mechanism".into();
+        head.rule = "accepted DP programs (1-3 aggregates, distinct splits, grouped by public / private / mixed keys, joins along the privacy-unit path, sub-queries) x a grid of DpParameters; the mechanisms actually present are read from the rewritten IR (sigma and clipping bound C per noised column, tau / sigma_count / Cu per threshold filter) and checked against closed forms written from the definitions: (i) every Gaussian column is matched by a recorded Gaussian entry with multiplier <= sigma/C, every threshold by an (epsilon, delta) entry >= the one solved from the literals; (ii) per query, some allocation exists with epsilon_used + sum epsilon_i <= epsilon and delta_used + sum delta_i <= delta under the classical calibration (the cheapest allocation is computed by nested bisection). non-trivial = configurations with at least one mechanism".into();
         head.assumptions = vec!["the IR reader (dpir.rs) identifies mechanisms by expression shape; C01 binds it to behaviour".into()];
         head.sample(json!({"query": "SELECT user_id, sum(amount) AS s FROM orders GROUP BY user_id", "mechanisms": "Gaussian on _SUM_amount (sigma, C) + threshold on noisy COUNT DISTINCT units (sigma_count, tau, Cu)"}));
         return head;
@@ -531,6 +617,40 @@ fn check_c01(c: &Compiled, plan: &crate::sqlite::Plan, e: &Engine, world: &World
 
 // ---------------------------------------------------------------------------------------
 
+/// min over (delta_1..delta_k), sum delta_i = delta_left, of sum_i sqrt(2 ln(1.25/delta_i)) / m_i
+/// (each term is convex and decreasing in delta_i: equalise the derivatives by nested bisection)
+pub fn min_epsilon_sum(ms: &[f64], delta_left: f64) -> f64 {
+    let g = |d: f64| d * (2.0 * (1.25 / d).ln()).sqrt(); // increasing on (0, 0.4]
+    let solve = |target: f64| -> f64 {
+        // delta with g(delta) = target, clamped to (0, 0.4]
+        let (mut lo, mut hi) = (1e-300f64, 0.4f64);
+        if g(hi) <= target {
+            return hi;
+        }
+        for _ in 0..200 {
+            let mid = (lo * hi).sqrt();
+            if g(mid) < target {
+                lo = mid
+            } else {
+                hi = mid
+            }
+        }
+        lo
+    };
+    // delta_i(lambda) = solve(1 / (m_i lambda)), decreasing in lambda
+    let total = |lambda: f64| -> f64 { ms.iter().map(|m| solve(1.0 / (m * lambda))).sum() };
+    let (mut lo, mut hi) = (1e-12f64, 1e300f64);
+    for _ in 0..400 {
+        let mid = (lo * hi).sqrt();
+        if total(mid) > delta_left {
+            lo = mid
+        } else {
+            hi = mid
+        }
+    }
+    ms.iter().map(|m| (2.0 * (1.25 / solve(1.0 / (m * hi))).ln()).sqrt() / m).sum()
+}
+
 fn check_c03(c: &Compiled, r: &mut Report) {
     let case_id = format!("{} [{}]", c.query.sql, c.dp_name);
     r.evaluations += 1;
@@ -625,8 +745,11 @@ fn check_c03(c: &Compiled, r: &mut Report) {
             r.violation(format!("delta-exhausted-by-thresholding tags={tags}"), &case_id, json!({"query": c.query.sql, "dp_parameters": c.dp_name, "delta_used": delta_used}));
             return;
         }
-        let di = delta_left / k;
-        let eps_sum: f64 = actual.iter().map(|(ratio, _)| (2.0 * (1.25 / di).ln()).sqrt() / ratio).sum();
+        // the cheapest allocation (epsilon_i, delta_i) that the applied multipliers can satisfy under the
+        // classical calibration m_i >= sqrt(2 ln(1.25/delta_i)) / epsilon_i with sum delta_i = delta_left
+        let ratios: Vec<f64> = actual.iter().map(|(ratio, _)| *ratio).collect();
+        let eps_sum = min_epsilon_sum(&ratios, delta_left);
+        let _ = k;
         if eps_used + eps_sum > c.dp.epsilon * (1.0 + 1e-6) {
             r.violation(
                 format!("budget-exceeded tags={tags}"),
